@@ -135,6 +135,7 @@ def vAckOutbound (p : Ack) : VRes := do
 def vSubscribeOutbound (p : Subscribe) : VRes := do
   okIf (p.packetId = 0)
   okIf (!p.subscriptions.isEmpty)
+  okIf (match p.subscriptionId with | none => true | some i => decide (1 ≤ i ∧ i ≤ 268435455))
   vUserProps p.userProps
 
 def vUnsubscribeOutbound (p : Unsubscribe) : VRes := do
